@@ -507,6 +507,11 @@ func sameValue(a, b ssa.Value) bool {
 	if a == b {
 		return true
 	}
+	if fa, ok := a.(*ssa.FieldAddr); ok {
+		if fb, ok := b.(*ssa.FieldAddr); ok && fa.Field == fb.Field && sameValue(fa.X, fb.X) {
+			return true
+		}
+	}
 	// loads of the same field of the same base
 	la, ok1 := a.(*ssa.UnOp)
 	lb, ok2 := b.(*ssa.UnOp)
